@@ -175,7 +175,7 @@ def run_C07(ctx, rep):
 
 
 def run_C08(ctx, rep):
-    gen_driver.run_twins(ctx, rep, lambda n, k: n.replace('_par', '') in ('t_mac_sugar', 't_macn_sugar', 't_mach_sugar', 't_macd_sugar', 't_maca_sugar', 't_macx_sugar', 't_macs_sugar', 't_macf_sugar', 't_macb_sugar'), floors={'T.L': 18})
+    gen_driver.run_twins(ctx, rep, lambda n, k: n.replace('_par', '') in ('t_mac_sugar', 't_macn_sugar', 't_mach_sugar', 't_macd_sugar', 't_maca_sugar', 't_macx_sugar', 't_macs_sugar', 't_macf_sugar', 't_macb_sugar', 't_macg_sugar'), floors={'T.L': 20})
     gen_driver.run_tv(ctx, rep, only_tags=['twin'], floors={'R1': 40})
     witness_rules.run_witnesses(ctx, rep, ctx.tier, kinds=('macro_self_rec', 'macro_mutual_rec', 'macro_head_rec', 'macro_rec3', 'macro_rec_in_disj', 'macro_double_rec_head', 'macro_double_rec_disj', 'macro_double_rec_body'))
     macro_rules.check_M2(ctx, rep)
